@@ -3,6 +3,8 @@ import SF.Lemmas.Cum
 import SF.Lemmas.MinMax
 import SF.Lemmas.Welford
 import SF.Lemmas.Hln
+import SF.Lemmas.Roc
+import SF.Lemmas.Bent
 /-
   C02 — Window statistics equal their definition over exactly the last N values.
   Each theorem: for every window length N ≥ 1 and every finite history `xs` (any length, any values: ties, zeros,
@@ -50,8 +52,29 @@ values: the cached extrema are refreshed whenever the evicted value was one of t
 theorem hln_eq (N : Nat) (hN : 0 < N) (xs : List α) :
     (hlnCore (α := α) N).outAfter xs = .ok (Spec.hln N xs) := Hln.outAfter_eq N hN xs
 
+/-- Roc is 100(x_t − x_{t−N})/x_{t−N}; the base is the first value while fewer than N+1 values exist; the previous output
+is held when the base is 0 -/
+theorem roc_eq (N : Nat) (hN : 0 < N) (xs : List α) :
+    (rocCore (α := α) N).outAfter xs = .ok (Spec.roc N xs) := Roc.outAfter_eq N hN xs
+
+/-- one step of the definition, unfolded: appending x to a history `x0 :: r` -/
+theorem roc_spec_step (N : Nat) (x0 : α) (r : List α) (x : α) :
+    Spec.roc N (x0 :: r ++ [x]) =
+      (let hist := x0 :: r ++ [x]
+       let t := hist.length - 1
+       let base := if N ≤ t then hist[t - N]?.getD x0 else x0
+       if base == nat 0 then Spec.roc N (x0 :: r) else some (nat 100 * (x - base) / base)) := by
+  have e : x0 :: r ++ [x] = x0 :: (r ++ [x]) := rfl
+  rw [e, Roc.roc_eq_fold N x0 (r ++ [x]), Roc.roc_eq_fold N x0 r, ← e, List.foldl_append]
+  simp only [List.foldl_cons, List.foldl_nil, Roc.stepR]
+  rw [Roc.fold_hist]; simp
+
 section welford
 variable [Transc α]
+
+/-- BinaryEntropy is the Shannon entropy in bits of the fraction of non-negative values among the last N -/
+theorem entropy_eq (N : Nat) (hN : 0 < N) (xs : List α) :
+    (bentCore (α := α) N).outAfter xs = .ok (Spec.entropy N xs) := Bent.outAfter_eq N hN xs
 
 /-- WelfordOnline: after any history the accessors `mean()` and `variance()` are the mean and the sample variance of
 exactly the window, and `last()` is the sample standard deviation (nothing before N−1 values) -/
